@@ -90,6 +90,15 @@ J06(t, k) ==
      ELSE IF c.exc # "" THEN "unexpected-exception"
      ELSE IF SmallEnough(pre) /\ AsDiag(c.res) \notin Class(pre) THEN "not-reachable-by-interchanges"
      ELSE "ok"
+  ELSE IF c.op = "foliate" THEN
+     \* foliation().flatten() is reachable by interchanges; depth() lies between the longest chain of
+     \* connected boxes and the number of boxes
+     IF c.exc # "" THEN "foliation-raised"
+     ELSE LET r == AsDiag(c.res) IN
+          IF SmallEnough(pre) /\ r \notin Class(pre) THEN "foliation-not-reachable-by-interchanges"
+          ELSE IF ~SameBoxes(r, pre) \/ r.dom # pre.dom \/ r.cod # pre.cod THEN "foliation-not-reachable-by-interchanges"
+          ELSE IF c.aux < LongestChain(pre) \/ c.aux > Len(pre.boxes) THEN "depth-out-of-bounds"
+          ELSE "ok"
   ELSE IF c.op = "normalize" THEN
      LET seq == <<pre>> \o [s \in 1..Len(c.steps) |-> AsDiag(c.steps[s])] IN
      IF \E s \in 1..Len(c.steps) : ~StepLegal(seq[s], seq[s + 1]) THEN "step-not-a-single-interchange"
